@@ -1230,7 +1230,16 @@ def shuffle(lst, random=None):
 
     '''
 
-    _libsc3.main._rgen.shuffle(lst, random)
+    _shuffle(lst, random)
+
+def _shuffle(lst, random):
+    # random.shuffle lost its 'random' parameter in Python 3.11.
+    if random is None:
+        _libsc3.main._rgen.shuffle(lst)
+    else:
+        for i in reversed(range(1, len(lst))):
+            j = int(random() * (i + 1))
+            lst[i], lst[j] = lst[j], lst[i]
 
 def scramble(lst, random=None):
     '''Return a new shuffled list from `lst`.
@@ -1241,7 +1250,7 @@ def scramble(lst, random=None):
     '''
 
     lst = lst.copy()
-    _libsc3.main._rgen.shuffle(lst, random)
+    _shuffle(lst, random)
     return lst
 
 # mirror, mirror1, mirror2  # one mirror with mode.
